@@ -21,6 +21,7 @@ This module is also the engine of C15 (`harness/props/c15.py` re-uses it with it
 """
 import io
 import itertools
+import json
 import logging
 import types
 import warnings
@@ -38,6 +39,8 @@ EXTRA = {
         "column names are strings (histories that produce other labels, e.g. transpose, are cut at that point)",
         "tables with zero rows are outside the statement: new columns of a frame without rows are not registered "
         "(modelled and compared, not claimed); a frame with rows that has lost all its columns is inside (zero units)",
+        "building a facade on an existing table frame without keyword arguments (`Table(tdf)`, proxy.py) performs no "
+        "consultation; the harness builds such facades for every access, the first checked access is the consultation",
         "a consultation may refuse the table (ColumnUnitException, InvalidNamingError for duplicate names, ValueError "
         "for a dtype kind without a StarTable unit): no unit list is reported then, which the statement allows",
     ],
@@ -230,12 +233,16 @@ class TableState:
     """one live table of a history (the start table, a re-wrap, a derived frame): its frame and what the
     oracles remember about it.  Tables a history derives from stay alive as siblings."""
 
-    def __init__(self, df, slot, assigned=None):
+    def __init__(self, df, slot, assigned=None, assigned_fmt=None):
         self.df = df
         self.slot = slot            # index of this table's info in the model driver
         self.tainted = False        # a special unit was involved in a unit-setter call since the last full validation
+        self.taint_obs = None       # what the table looked like (frame + strict flag) when it was tainted
         self.expect_default = {}    # column name -> True: created without explicit unit, check at next success
         self.assigned = dict(assigned or {})   # column name -> the unit explicitly given for that column
+        # column name -> display-format specifier given for that column (None: known to have none); kept by the
+        # harness from what the history did, never read back from the implementation
+        self.assigned_fmt = dict(assigned_fmt or {})
         self.snap = None            # plain DataFrame copy of the frame at the last successful consultation
 
 
@@ -254,8 +261,10 @@ class Ctx:
         self.failed = False
 
     tainted = _delegate("tainted")
+    taint_obs = _delegate("taint_obs")
     expect_default = _delegate("expect_default")
     assigned = _delegate("assigned")
+    assigned_fmt = _delegate("assigned_fmt")
     snap = _delegate("snap")
 
     @property
@@ -266,13 +275,24 @@ class Ctx:
     def df(self, new_df):
         """a new table object came into being (construction, re-wrap, derived frame): it becomes the current
         one, the table it came from stays alive as a sibling with its own register"""
-        ts = TableState(new_df, len(self.tables), assigned=self.cur.assigned if self.cur is not None else None)
+        ts = TableState(new_df, len(self.tables), assigned=self.cur.assigned if self.cur is not None else None,
+                        assigned_fmt=self.cur.assigned_fmt if self.cur is not None else None)
         self.tables.append(ts)
         self.cur = ts
 
     @property
     def info(self):
         return self.df._table_data
+
+    def look(self):
+        """what a consultation can depend on, as seen from outside: columns, dtypes, emptiness, strict flag"""
+        return (json.dumps(self.obs.frame(self.df), sort_keys=True), bool(self.info.metadata.strict_types))
+
+    def taint(self):
+        """a unit setter put or removed a special unit: C15 is not claimed for this table until it is validated
+        again, i.e. until a consultation succeeds on a table that does not look like it did at this moment"""
+        self.tainted = True
+        self.taint_obs = self.look()
 
     def send(self, k, res, frame=None, info=None, t=None, **args):
         """append one model step with what the implementation answered"""
@@ -281,7 +301,10 @@ class Ctx:
                 "frame": frame if frame is not None else self.obs.frame(self.df)}
         step.update(args)
         self.steps.append(step)
-        self.expect.append({"res": res, "reg": reg_snapshot(info), "last": info._last_dataframe_state is not None})
+        has = info._last_dataframe_state is not None
+        self.expect.append({"res": res, "reg": reg_snapshot(info), "last": has,
+                            "ls": bool(info._last_strict_types) if has else None,
+                            "strict": bool(info.metadata.strict_types)})
 
 
 def exc_name(e):
@@ -342,6 +365,7 @@ def init_table(ctx, plan=None):
         ctx.df = t.df
         if len(set(names)) == len(names) and not ctx.df.empty:
             ctx.assigned = dict(zip(names, units)) if units is not None else dict(unit_map or {})
+            ctx.assigned_fmt = {n: None for n in names}          # a freshly constructed table has no display formats
         if units is None:
             for n in names:
                 if unit_map is None or n not in unit_map:
@@ -384,6 +408,7 @@ def op_add_column(ctx, setitem=False):
         if rng.random() < 0.15:
             kw["display_unit"] = rng.choice(["mm", ""])
     t = Table(ctx.df)
+    was_registered = name in ctx.info.columns
     try:
         if setitem:
             quiet(t.__setitem__, name, vals)
@@ -400,6 +425,7 @@ def op_add_column(ctx, setitem=False):
     f = kw.get("display_format")
     ctx.send("add_column", res, name=name, unit=unit, dunit=kw.get("display_unit"),
              fmt=None if f is None else str(f.specifier))
+    ctx.taint_obs = None            # add_column forgets the remembered state: the next success is a validation
     if res is None and unit is None:
         ctx.expect_default[name] = True
     else:
@@ -408,6 +434,18 @@ def op_add_column(ctx, setitem=False):
         ctx.assigned[name] = unit
     else:
         ctx.assigned.pop(name, None)
+    # display format: a new register entry gets the format given (or none); an existing entry keeps a format it
+    # already has and otherwise takes the one given (ColumnMetadata.update_from)
+    spec = None if f is None else str(f.specifier)
+    if res is not None:
+        ctx.assigned_fmt.pop(name, None)
+    elif not was_registered:
+        ctx.assigned_fmt[name] = spec
+    elif name in ctx.assigned_fmt:
+        if ctx.assigned_fmt[name] is None:
+            ctx.assigned_fmt[name] = spec
+    elif spec is not None:
+        ctx.assigned_fmt.pop(name, None)
     return desc
 
 
@@ -455,12 +493,13 @@ def op_set_units(ctx):
         res = exc_name(e)
     for n, u in m.items():
         if setter_involves_special(ctx, n, u, pre.get(n)):
-            ctx.tainted = True
+            ctx.taint()
         ctx.expect_default.pop(n, None)
         if res is None:
             ctx.assigned[n] = u
         else:
             ctx.assigned.pop(n, None)
+            ctx.assigned_fmt.pop(n, None)
     ctx.send("set_units", res, map=[[n, u] for n, u in m.items()])
     return f"set_units({m})"
 
@@ -478,12 +517,13 @@ def op_set_all_units(ctx):
         res = exc_name(e)
     for name, u in zip(ctx.df.columns, us):
         if setter_involves_special(ctx, name, u, pre.get(name)):
-            ctx.tainted = True
+            ctx.taint()
         ctx.expect_default.pop(name, None)
         if res is None:
             ctx.assigned[name] = u
         else:
             ctx.assigned.pop(name, None)
+            ctx.assigned_fmt.pop(name, None)
     ctx.send("set_all_units", res, units=us)
     return f"set_all_units({us})"
 
@@ -501,12 +541,13 @@ def op_set_col_unit(ctx):
     except Exception as e:
         res = exc_name(e)
     if setter_involves_special(ctx, name, u, pre):
-        ctx.tainted = True
+        ctx.taint()
     ctx.expect_default.pop(name, None)
     if res is None:
         ctx.assigned[name] = u
     else:
         ctx.assigned.pop(name, None)
+        ctx.assigned_fmt.pop(name, None)
     ctx.send("set_col_unit", res, name=name, unit=u)
     return f"t[{name!r}].unit={u!r}"
 
@@ -525,8 +566,36 @@ def op_set_format(ctx):
         res = None
     except Exception as e:
         res = exc_name(e)
+    if res is None:
+        ctx.assigned_fmt[name] = None if fmt is None else str(fmt.specifier)
+    else:
+        ctx.assigned_fmt.pop(name, None)
     ctx.send("set_fmt", res, name=name, fmt=None if fmt is None else str(fmt.specifier))
     return f"column_metadata[{name!r}].display_format={None if fmt is None else fmt.specifier!r}"
+
+
+def op_set_strict(ctx):
+    """`table.metadata.strict_types = b`: a plain attribute edit (through the facade, which consults first, or
+    directly on the info object)"""
+    from pdtable import Table
+    rng = ctx.rng
+    b = rng.random() < 0.6
+    if rng.random() < 0.7:
+        try:
+            units = list(quiet(lambda: Table(ctx.df).units))
+            ures = units
+        except Exception as e:
+            units, ures = None, exc_name(e)
+        ctx.send("units", ures)
+        if units is None:
+            return f"metadata.strict_types={b} -> {ures['exc']} (table refused)"
+        quiet(lambda: Table(ctx.df).metadata).strict_types = b
+        how = "facade"
+    else:
+        ctx.info.metadata.strict_types = b
+        how = "info"
+    ctx.send("set_strict", None, b=b)
+    return f"metadata.strict_types={b} ({how})"
 
 
 def op_rewrap(ctx):
@@ -562,6 +631,8 @@ def op_rewrap(ctx):
         ctx.expect_default = {}
         if us is not None and not ctx.df.empty:
             ctx.assigned = dict(zip(list(ctx.df.columns), us))
+        # a re-wrap builds fresh ColumnMetadata(unit) objects: display formats are not part of what it carries over
+        ctx.assigned_fmt = {} if ctx.df.empty else {n: None for n in ctx.df.columns}
         ctx.send("rewrap", None, t=old_slot, units=us, strict=st)
     else:
         ctx.send("rewrap", res, info=old_info, units=us, strict=st)
@@ -593,6 +664,7 @@ def op_df_insert(ctx):
     known = name in ctx.info.columns
     if name in ctx.df.columns:
         ctx.assigned.pop(name, None)          # duplicate label: which column "owns" the unit is undefined
+        ctx.assigned_fmt.pop(name, None)
     d = inplace(ctx, lambda df: df.insert(pos, name, vals, allow_duplicates=allow), f"df.insert({pos},{name!r},{kind})")
     if not known and "-> pandas" not in d:
         ctx.expect_default[name] = True
@@ -606,6 +678,7 @@ def op_df_del(ctx):
     name = ctx.rng.choice(cur)
     ctx.expect_default.pop(name, None)
     ctx.assigned.pop(name, None)
+    ctx.assigned_fmt.pop(name, None)
 
     def f(df):
         del df[name]
@@ -623,7 +696,9 @@ def op_df_rename(ctx):
         ctx.expect_default[new] = True
     if new != old:
         ctx.assigned.pop(old, None)
+        ctx.assigned_fmt.pop(old, None)
         ctx.assigned.pop(new, None)
+        ctx.assigned_fmt.pop(new, None)
     return inplace(ctx, lambda df: df.rename(columns={old: new}, inplace=True), f"df.rename({old!r}->{new!r},inplace)")
 
 
@@ -635,6 +710,7 @@ def op_df_setcols(ctx):
         if c not in ctx.info.columns:
             ctx.expect_default[c] = True
     ctx.assigned = {}
+    ctx.assigned_fmt = {}
 
     def f(df):
         df.columns = new
@@ -723,6 +799,7 @@ def op_df_loc_append(ctx):
 def op_df_del_all(ctx):
     """delete every column in place: the frame keeps its rows (index) but has no columns any more"""
     ctx.assigned = {}
+    ctx.assigned_fmt = {}
 
     def f(df):
         for c in list(dict.fromkeys(df.columns)):
@@ -741,6 +818,7 @@ def op_df_drop_cols_inplace(ctx):
     k = ctx.rng.choice(cur)
     ctx.expect_default.pop(k, None)
     ctx.assigned.pop(k, None)
+    ctx.assigned_fmt.pop(k, None)
     return inplace(ctx, lambda df: df.drop(columns=[k], inplace=True), f"df.drop(columns=[{k!r}],inplace)")
 
 
@@ -770,6 +848,7 @@ def op_df_restore(ctx):
     if snap is None:
         return "restore(nothing)"
     ctx.assigned = {}
+    ctx.assigned_fmt = {}
 
     def f(df):
         for c in list(dict.fromkeys(df.columns)):
@@ -869,6 +948,7 @@ def derived(ctx, fn, desc, keeps_units=True):
     ctx.tainted = False
     if not keeps_units:
         ctx.assigned = {}
+        ctx.assigned_fmt = {}
     ctx.expect_default = {c[0]: True for c in rec["frame"]["cols"] if not any(c[0] == e[0] for s in rec["srcs"] for e in s)}
     # the register as it is now belongs to the finalize-time frame; the frame may have changed since (set_axis)
     ctx.send("finalize", None, t=old_slot, frame=rec["frame"], srcs=rec["srcs"], strict=rec["strict"])
@@ -1009,7 +1089,7 @@ def op_iloc_cols(ctx):
 OPS = {
     "add_column": (op_add_column, 8), "setitem": (lambda c: op_add_column(c, True), 6),
     "set_units": (op_set_units, 4), "set_all_units": (op_set_all_units, 2), "set_col_unit": (op_set_col_unit, 4),
-    "rewrap": (op_rewrap, 4), "set_format": (op_set_format, 6),
+    "rewrap": (op_rewrap, 4), "set_format": (op_set_format, 6), "set_strict": (op_set_strict, 3),
     "df_insert": (op_df_insert, 6), "df_del": (op_df_del, 4), "df_rename": (op_df_rename, 4),
     "df_setcols": (op_df_setcols, 3), "df_move": (op_df_move, 5), "df_sortcols": (op_df_sortcols_inplace, 2),
     "df_assign": (op_df_assign, 6), "df_astype": (op_df_astype, 4), "df_loc_append": (op_df_loc_append, 4),
@@ -1024,7 +1104,7 @@ OPS = {
 C15_WEIGHTS = {
     "add_column": 8, "setitem": 8, "set_units": 5, "set_col_unit": 5, "set_all_units": 1, "rewrap": 6,
     "df_assign": 10, "df_astype": 10, "df_loc_append": 10, "df_drop_rows": 5, "df_setcell": 6, "df_fillna_inplace": 3,
-    "df_insert": 3, "df_del": 2, "df_rename": 1, "df_move": 1, "df_restore": 6, "df_setcols": 2, "df_del_all": 1, "set_format": 1, "copy": 5, "astype": 8, "fillna": 6, "replace": 5,
+    "df_insert": 3, "df_del": 2, "df_rename": 1, "df_move": 1, "df_restore": 6, "df_setcols": 2, "df_del_all": 1, "set_format": 1, "set_strict": 6, "copy": 5, "astype": 8, "fillna": 6, "replace": 5,
     "rows": 6, "concat": 4, "merge": 2, "assign": 3, "select": 2, "reindex": 2,
 }
 
@@ -1037,9 +1117,9 @@ def probe(ctx, writers):
     out = ctx.out
     df = ctx.df
     info = ctx.info
-    state_before = info._last_dataframe_state
     cur_names = set(df.columns)
     ctx.assigned = {k: v for k, v in ctx.assigned.items() if k in cur_names}
+    ctx.assigned_fmt = {k: v for k, v in ctx.assigned_fmt.items() if k in cur_names}
     ctx.send("peek", None)
     t = Table(df)
     names = list(df.columns)
@@ -1067,8 +1147,11 @@ def probe(ctx, writers):
     if units is not None:
         import pandas as pd
         ctx.snap = pd.DataFrame(df).copy()       # plain copy of the frame as last consulted successfully
-    if units is not None and info._last_dataframe_state is not state_before:
-        ctx.tainted = False                      # a full validation just succeeded
+    if units is not None and ctx.tainted and (ctx.taint_obs is None or ctx.look() != ctx.taint_obs):
+        # the table no longer looks like it did when it was relabelled (or add_column asked for re-validation):
+        # this successful consultation cannot have been skipped, the guarantee is back
+        ctx.tainted = False
+        ctx.out.count("c15_taint_cleared")
     if not lookups_first:
         do_lookups()
     elif units is not None:
@@ -1120,6 +1203,14 @@ def run_writers(ctx, t):
             lines = s.getvalue().split("\n")
             ncol = len(t.df.columns)
             res["csv_t"] = {"cols": [ln.split(";") for ln in lines[2:2 + ncol]], "head": lines[0]}
+            try:
+                wb = openpyxl.Workbook()
+                ws = wb.active
+                quiet(_append_table_to_openpyxl_worksheet, t, ws, 1, "-")
+                rows = list(ws.iter_rows(values_only=True))
+                res["xlsx_t"] = {"cols": [[r[0], r[1]] for r in rows[2:2 + ncol]], "head": rows[0][0]}
+            except Exception as e:
+                res["xlsx_t"] = exc_name(e)
         finally:
             meta.transposed = was
     except Exception as e:
@@ -1134,7 +1225,11 @@ def run_writers(ctx, t):
         ws = wb.active
         quiet(_append_table_to_openpyxl_worksheet, t, ws, 1, "-")
         rows = list(ws.iter_rows(values_only=True))
-        res["xlsx"] = {"names": [c for c in rows[2]], "units": [c for c in rows[3]]}
+        if len(t.df.columns) == 0:
+            # openpyxl drops the two empty appended rows: nothing but the header and destinations lines
+            res["xlsx"] = {"names": [c for r in rows[2:] for c in r if c is not None], "units": []}
+        else:
+            res["xlsx"] = {"names": [c for c in rows[2]], "units": [c for c in rows[3]]}
     except Exception as e:
         res["xlsx"] = exc_name(e)
     # model side: header + json pairing
@@ -1184,6 +1279,15 @@ def oracle_c04(ctx, t, units, ures, lookups, it, wr):
             return _fail(ctx, "a column does not carry the unit that was given for it",
                          {"column": n, "unit": by_name.get(n), "columns": names, "units": units}, ctx.assigned[n],
                          "C04:own-unit")
+    if ctx.assigned_fmt:
+        cm_now = t.column_metadata
+        for n in names:
+            if n in ctx.assigned_fmt and n in cm_now:
+                f_now = cm_now[n].display_format
+                spec_now = None if f_now is None else str(f_now.specifier)
+                if spec_now != ctx.assigned_fmt[n]:
+                    return _fail(ctx, "a column does not carry the display format that was given for it",
+                                 {"column": n, "display_format": spec_now}, ctx.assigned_fmt[n], "C04:own-format")
     if isinstance(it, dict) or [p[0] for p in it] != names or [p[1] for p in it] != units:
         return _fail(ctx, "iterating the table does not give the dataframe columns with their units", it,
                      [[n, u] for n, u in zip(names, units)], "C04:iteration")
@@ -1217,6 +1321,13 @@ def oracle_c04(ctx, t, units, ures, lookups, it, wr):
                 written = {n: (c[1], c[2:]) for n, c in zip(names, cols)}
                 if _check_written_columns(ctx, t, names, own, written, "write_csv (transposed)"):
                     return
+    xl_t = wr.get("xlsx_t")
+    if xl_t is not None:
+        if "exc" in xl_t:
+            out.count("xlsx_transposed_value_error:" + xl_t["exc"])
+        elif names and xl_t["cols"] != [[str(n), u] for n, u in zip(names, own)]:
+            return _fail(ctx, "excel layout (transposed) does not write one line per dataframe column with its own unit",
+                         xl_t["cols"], [[str(n), u] for n, u in zip(names, own)], "C04:xlsx-pairing")
     js = wr["json"]
     if js is None:
         pass
@@ -1228,6 +1339,9 @@ def oracle_c04(ctx, t, units, ures, lookups, it, wr):
     xl = wr["xlsx"]
     if "exc" in xl:
         out.count("xlsx_value_error:" + xl["exc"])            # openpyxl refusing a cell value
+    elif not names and (xl["names"] or xl["units"]):
+        return _fail(ctx, "excel layout has name or unit cells for a table without columns", xl, {"names": [], "units": []},
+                     "C04:xlsx-pairing")
     elif names and (list(xl["names"]) != names or list(xl["units"]) != own):
         return _fail(ctx, "excel layout pairs column names with other columns' units", xl,
                      {"names": names, "units": own}, "C04:xlsx-pairing")
@@ -1247,14 +1361,24 @@ def _check_written_columns(ctx, t, names, own, written, label):
         col = df[n]
         if str(col.dtype) not in ("float64", "int64") or own[j] in ("text", "onoff", "datetime"):
             continue
-        f = cm[n].display_format
+        impl_spec = None if cm[n].display_format is None else str(cm[n].display_format.specifier)
+        if n in ctx.assigned_fmt:
+            spec = ctx.assigned_fmt[n]        # what the history gave this column, independent of the register
+            ctx.out.count("fmt_expected:tracked")
+            if impl_spec != spec:
+                _fail(ctx, "a column does not carry the display format that was given for it",
+                      {"column": n, "display_format": impl_spec}, spec, "C04:own-format")
+                return True
+        else:
+            spec = impl_spec                  # history lost track (rename, merge, ...): weaker, self-referential check
+            ctx.out.count("fmt_expected:from_register")
         for x, cell in zip(col.tolist(), cells):
             if x != x:
                 continue                      # missing values are written as the na_rep, not formatted
-            exp = ("{:" + f.specifier + "}").format(x) if f is not None else str(x)
+            exp = ("{:" + spec + "}").format(x) if spec is not None else str(x)
             if cell != exp:
                 _fail(ctx, f"{label} does not render a column with that column's own display format",
-                      {"column": n, "display_format": None if f is None else f.specifier, "cell": cell,
+                      {"column": n, "display_format": spec, "cell": cell,
                        "formats": {k: (None if v.display_format is None else v.display_format.specifier) for k, v in cm.items()}},
                       exp, "C04:csv-format")
                 return True
@@ -1276,6 +1400,9 @@ def oracle_c15(ctx, t, units):
     if not strict or ctx.tainted:
         ctx.out.count("c15_not_claimed:" + ("nonstrict" if not strict else "relabelled"))
         return
+    if len(units) != len(names):
+        return _fail(ctx, "readable strict table with a column that has no unit at all (cannot be 'text'/'onoff'-consistent)",
+                     {"columns": names, "units": units, "kinds": kinds}, "one unit per column", "C15:unit-count")
     for n, u, k in zip(names, units, kinds):
         if (u == "text") != (k in "OSU") or (u == "onoff") != (k == "b"):
             return _fail(ctx, "readable strict table whose special unit does not match the data type",
@@ -1323,7 +1450,10 @@ def run_history(out, prop, seed, stream, index, depth, weights=None, plan=None, 
         if res["exc"] not in REFUSALS + ("Exception",):
             out.fail("Table construction crashed", case, res, "a table or a refusal", key=f"{prop}:ctor-crash:" + res["exc"])
         return {"op": "meta_hist", "init": init, "steps": []}, {"init": res, "steps": []}, case, ctx
-    init_expect = {"res": None, "reg": reg_snapshot(ctx.info), "last": ctx.info._last_dataframe_state is not None}
+    has0 = ctx.info._last_dataframe_state is not None
+    init_expect = {"res": None, "reg": reg_snapshot(ctx.info), "last": has0,
+                   "ls": bool(ctx.info._last_strict_types) if has0 else None,
+                   "strict": bool(ctx.info.metadata.strict_types)}
     names = list(weights or {k: w for k, (f, w) in OPS.items()})
     wts = [(weights or {k: w for k, (f, w) in OPS.items()})[k] for k in names]
     try:
@@ -1337,8 +1467,10 @@ def run_history(out, prop, seed, stream, index, depth, weights=None, plan=None, 
             out.count("op:" + k)
             cur_names = set(ctx.df.columns)
             ctx.assigned = {n: u for n, u in ctx.assigned.items() if n in cur_names}   # units of columns that left are forgotten
+            ctx.assigned_fmt = {n: u for n, u in ctx.assigned_fmt.items() if n in cur_names}
             if ctx.df.empty or len(ctx.df) < 1:
                 ctx.assigned = {}     # the statement is about tables with at least one row: nothing is tracked through empty states
+                ctx.assigned_fmt = {}
             if skip:
                 # no consultation between this operation and the next one
                 case["ops"].append(d + "  [not consulted]")
@@ -1410,7 +1542,7 @@ def function_level(out, rng, n):
 
 SCRIPT_ALPHABET = ["add_column", "setitem", "set_col_unit", "df_insert", "df_del", "df_rename", "df_move",
                    "df_assign", "df_astype", "df_loc_append", "df_drop_rows", "select", "copy", "sort_index",
-                   "reindex", "concat", "merge", "assign", "drop", "astype", "rows", "rewrap", "df_del_all", "set_format"]
+                   "reindex", "concat", "merge", "assign", "drop", "astype", "rows", "rewrap", "df_del_all", "set_format", "set_strict"]
 EX_PLAN = (["a", "b", "c"], ["f", "s", "b"], 2, "good", True)
 # second enumeration, aimed at the remembered-state short cut: emptiness transitions around type-changing edits
 E_ALPHABET = ["df_drop_rows", "df_loc_append", "df_insert!", "df_assign!", "setitem!", "add_column!", "df_astype",
@@ -1449,12 +1581,12 @@ def run(tier, seed, model_ok, translator, search=False, prop="C04", weights=None
     out = Outcome()
     out.rule = ("operation histories on real Tables: random start table (0-4 columns of 16 value kinds, 0-3 rows, units "
                 "right / wrong / short / long / unit_map / absent, strict_types on/off) followed by random operations from an "
-                "alphabet of 38 (facade add_column/__setitem__/unit setters/re-wrap; in-place dataframe insert, del, rename, "
+                "alphabet of 39 (facade add_column/__setitem__/unit setters/re-wrap; in-place dataframe insert, del, rename, "
                 "relabel, move, sort, assign, astype, loc row append, drop rows/columns, cell assignment, fillna; pandas "
                 "select, copy, sort_index, reindex, concat both axes, merge, assign, drop, astype, fillna, replace, rename, "
                 "row selections incl. empty, set_axis, iloc); after every operation the table is consulted (units, per-column "
                 "lookup, iteration, writers) and compared with the model step by step; bounded-exhaustive scripts over a "
-                "24-operation alphabet from a fixed 3-column table and over an 8-operation alphabet around emptiness "
+                "25-operation alphabet from a fixed 3-column table and over an 8-operation alphabet around emptiness "
                 "transitions. Non-trivial: history with >= 1 successful consultation of "
                 "a table with rows after an operation; distinct by (start table, operation descriptions).")
     thorough = tier == "thorough"
